@@ -3,7 +3,7 @@
    Fxp(val, raw=True)).  max, min, sort, clip, transpose, diagonal keep the operand's format and
    only select / rearrange codes (checked by the correspondence run). *)
 From Coq Require Import ZArith List Bool Lia.
-From FxpVerif Require Import Spec SpecArith NP Store ProofsCore Arith Reduce ProofsReduce.
+From FxpVerif Require Import Spec SpecArith NP Store ProofsCore Arith Reduce ProofsReduce ProofsCumprod.
 Import ListNotations.
 Open Scope Z_scope.
 
@@ -47,6 +47,24 @@ Theorem C15_prod_exact : forall f l r o, 1 <= nw f -> (1 <= length l)%nat -> Z.o
     w_codes w = [zprod l] /\ w_ovf w = false /\ w_unf w = false.
 Proof. exact fxp_prod_exact. Qed.
 Print Assumptions C15_prod_exact.
+
+(* cumprod: every running product, expressed with the n * n_frac fraction bits of the result, exact and inside the optimal
+   format (no flag), for result words up to 53 bits (the property's domain; the unsigned case travels as float64) *)
+Theorem C15_cumprod_exact : forall f l r o, 1 <= nw f -> 0 <= nf f -> (1 <= length l)%nat ->
+  nw (cumprod_fmt f (Z.of_nat (length l))) <= 53 -> Forall (in_range f) l ->
+  exists w, fxp_cumprod f l r o = Ok (cumprod_fmt f (Z.of_nat (length l)), w) /\
+    w_codes w = cumprod_spec (nf f) (Z.of_nat (length l)) 1 1 l /\ w_ovf w = false /\ w_unf w = false.
+Proof. exact fxp_cumprod_exact. Qed.
+Print Assumptions C15_cumprod_exact.
+(* ... and the k-th of those codes denotes the product of the first k values *)
+Theorem C15_cumprod_entry_value : forall p n k nfr, 0 <= nfr -> k <= n ->
+  dy_eqb {| dm := p * 2^((n - k) * nfr); de := - (n * nfr) |} {| dm := p; de := - (k * nfr) |} = true.
+Proof. exact cumprod_entry_value. Qed.
+Print Assumptions C15_cumprod_entry_value.
+Example C15_cumprod_nonvacuous :
+  fxp_cumprod {| sg := true; nw := 4; nf := 1 |} [-8; -8; 3] Trunc Saturate
+  = Ok ({| sg := true; nw := 12; nf := 3 |}, {| w_codes := [-32; 128; 192]; w_ovf := false; w_unf := false; w_inacc := false |}).
+Proof. vm_compute. reflexivity. Qed.
 
 (* dot (one entry of a vector or matrix product): the exact sum of the products *)
 Theorem C15_dot_exact : forall fx fy xs ys r o, 1 <= nw fx -> 1 <= nw fy -> length xs = length ys -> (1 <= length xs)%nat ->
